@@ -5,6 +5,7 @@ package vx
 import (
 	"fmt"
 	"os"
+	"sort"
 	"time"
 
 	"github.com/nsqio/nsq/internal/verif/vrt"
@@ -298,14 +299,19 @@ func addBacktrack(n *dNode, events []dEvent, i, j, p int, beforeJ []int) {
 		n.addThread(p)
 		return
 	}
+	var qs []int
 	for q := range n.enabledT {
+		qs = append(qs, q)
+	}
+	sort.Ints(qs) // deterministic exploration order
+	for _, q := range qs {
 		if q < len(beforeJ) && beforeJ[q] > i+1 {
 			// some event of q with index in (i, j) happens-before j
 			n.addThread(q)
 			return
 		}
 	}
-	for q := range n.enabledT {
+	for _, q := range qs {
 		n.addThread(q)
 	}
 }
